@@ -4,12 +4,9 @@ import os
 HERE = os.path.dirname(os.path.abspath(__file__))
 # (source file, type path inside the module, property, label for fn=, extra use lines)
 ENTRIES = [
- ("src/hwc.rs", "Hwc", "C18"), ("src/iwc.rs", "Iwc", "C18"), ("src/pap.rs", "Pap", "C18"), ("src/phyb.rs", "Phyb", "C18"),
- ("src/scd.rs", "Scd", "C18"), ("src/schd.rs", "Schd", "C18"), ("src/sgb.rs", "Sgb", "C18"), ("src/skp.rs", "Skp", "C18"), ("src/tmb.rs", "Tmb", "C18"),
- ("src/uld.rs", "Uld", "C18"), ("src/stm.rs", "StainingTemplate", "C18"), ("src/tera.rs", "Terrain", "C18"), ("src/exh.rs", "EXH", "C18"),
- ("src/exd.rs", "EXD", "C18"), ("src/pbd.rs", "PreBoneDeformer", "C18"), ("src/skeleton.rs", "Skeleton", "C18"), ("src/dic.rs", "Dictionary", "C18"),
- ("src/avfx.rs", "Avfx", "C18"), ("src/sqpack/db.rs", "SqPackDatabase", "C18"), ("src/mtrl.rs", "Material", "C18"), ("src/shpk.rs", "ShaderPackage", "C18"),
- ("src/model.rs", "MDL", "C18"), ("src/chardat.rs", "CharacterData", "C17"), ("src/fiin.rs", "FileInfo", "C17"), ("src/layer/mod.rs", "LayerGroup", "C18"),
+ # header-only formats whose whole parser CBMC carries; every other from_existing (exd, exh, mtrl, shpk, model, skeleton, pbd, tera, stm,
+ # dic, avfx, sqpack db, layer, chardat, fiin, pap, scd, schd, sgb, skp, uld) timed out even on empty buffers and is listed as not decided
+ ("src/hwc.rs", "Hwc", "C18"), ("src/iwc.rs", "Iwc", "C18"), ("src/tmb.rs", "Tmb", "C18"), ("src/phyb.rs", "Phyb", "C18"),
 ]
 for src, ty, prop in ENTRIES:
     base = src[4:-3].replace("/", "__")
